@@ -3,97 +3,301 @@ Require Import List Arith Bool PeanoNat Lia Permutation.
 Import ListNotations.
 Require Import LV.SolveCount.CountModel.
 
-(* ------------------------------------------------------------------ solve: failure changes nothing, success swaps the calibration *)
-Lemma solve_cases (o : oracle) (st : state) :
-  solve o st = (st, Err EINVAL) \/ solve o st = (st, OutOfModel) \/ solve o st = (st, Err EDOM)
-  \/ solve o st = (set_cal st (Some (st_meas st)), Ok).
+(* ------------------------------------------------------------------ layout: the unity term *)
+(* for every configuration vnacal_new_alloc accepts there is at least one term per system, so
+   "unknowns = t_terms - 1" is the number of terms without the unity term (no truncated subtraction) *)
+Lemma t_terms_unity (ty : ctype) (r c : nat) :
+  alloc_ok ty r c = true -> t_terms ty r c = S (unknowns ty r c).
+Proof.
+  unfold alloc_ok, unknowns. intros H.
+  apply andb_prop in H. destruct H as [H _]. apply andb_prop in H. destruct H as [Hr Hc].
+  apply Nat.leb_le in Hr. apply Nat.leb_le in Hc.
+  assert (P : 1 <= Nat.max r c) by lia.
+  destruct ty; simpl; try (pose proof (Nat.min_spec r (Nat.max r c)); pose proof (Nat.min_spec (Nat.max r c) r); lia).
+  all: assert (1 <= r * Nat.max r c) by (apply (Nat.le_trans _ (1 * 1)); [lia | apply Nat.mul_le_mono; lia]);
+       assert (1 <= Nat.max r c * r) by (rewrite Nat.mul_comm; assumption); lia.
+Qed.
+
+(* ------------------------------------------------------------------ parameter values *)
+Lemma pv_get_set_same (pv : pvals) (k : nat) (v : pval) : pv_get (pv_set pv k v) k = v.
+Proof.
+  induction pv as [| [k' v'] r IH]; simpl; [rewrite Nat.eqb_refl; reflexivity |].
+  destruct (k' =? k) eqn:E; simpl; [rewrite Nat.eqb_refl; reflexivity | rewrite E; exact IH].
+Qed.
+
+Lemma pv_get_set_other (pv : pvals) (k k0 : nat) (v : pval) : k0 <> k -> pv_get (pv_set pv k v) k0 = pv_get pv k0.
+Proof.
+  intros N. induction pv as [| [k' v'] r IH]; simpl.
+  - destruct (k =? k0) eqn:E; [apply Nat.eqb_eq in E; congruence | reflexivity].
+  - destruct (k' =? k) eqn:E; simpl.
+    + apply Nat.eqb_eq in E. subst k'. destruct (k =? k0) eqn:E2; [apply Nat.eqb_eq in E2; congruence | reflexivity].
+    + destruct (k' =? k0); [reflexivity | exact IH].
+Qed.
+
+(* the write-back loop: without an injected fault it completes *)
+Lemma writeback_nofault (F : nat) (tag : list meas) (ps : list nat) (nc : nat) (pv : pvals) :
+  snd (writeback F tag None nc ps pv) = true.
+Proof.
+  revert nc pv. induction ps as [| k ps IH]; intros nc pv; simpl; [reflexivity |].
+  destruct (pv_freqs (pv_get pv k) =? F); apply IH.
+Qed.
+
+(* parameters that are not in the unknown list are never touched, completed or not *)
+Lemma writeback_frame (F : nat) (tag : list meas) (fa : option nat) (ps : list nat) (nc : nat) (pv : pvals) (k0 : nat) :
+  ~ In k0 ps -> pv_get (fst (writeback F tag fa nc ps pv)) k0 = pv_get pv k0.
+Proof.
+  revert nc pv. induction ps as [| k ps IH]; intros nc pv N; simpl; [reflexivity |].
+  assert (N1 : k0 <> k) by (intros E; apply N; left; congruence).
+  assert (N2 : ~ In k0 ps) by (intros E; apply N; right; exact E).
+  destruct (pv_freqs (pv_get pv k) =? F).
+  - rewrite IH by exact N2. apply pv_get_set_other. exact N1.
+  - destruct (match fa with Some j => j =? nc | None => false end); simpl.
+    + apply pv_get_set_other. exact N1.
+    + rewrite IH by exact N2. apply pv_get_set_other. exact N1.
+Qed.
+
+(* a completed write-back leaves every listed parameter with the new frequency count and the new solution *)
+Lemma writeback_done (F : nat) (tag : list meas) (fa : option nat) (ps : list nat) (nc : nat) (pv : pvals) (k0 : nat) :
+  snd (writeback F tag fa nc ps pv) = true -> In k0 ps ->
+  pv_get (fst (writeback F tag fa nc ps pv)) k0 = {| pv_freqs := F; pv_gamma := Some tag |}.
+Proof.
+  revert nc pv. induction ps as [| k ps IH]; intros nc pv C I; simpl in *; [contradiction |].
+  destruct (in_dec Nat.eq_dec k0 ps) as [I2 | N2].
+  - destruct (pv_freqs (pv_get pv k) =? F); [apply IH; assumption |].
+    destruct (match fa with Some j => j =? nc | None => false end); [discriminate | apply IH; assumption].
+  - destruct I as [E | I]; [subst k0 | contradiction].
+    destruct (pv_freqs (pv_get pv k) =? F).
+    + rewrite writeback_frame by exact N2. apply pv_get_set_same.
+    + destruct (match fa with Some j => j =? nc | None => false end); [discriminate |].
+      rewrite writeback_frame by exact N2. apply pv_get_set_same.
+Qed.
+
+(* ------------------------------------------------------------------ solve: what each exit leaves behind *)
+Definition wb_fault (af : afault) : bool := match af with FaultWriteback _ => true | _ => false end.
+Definition fail_at (af : afault) : option nat := match af with FaultWriteback j => Some j | _ => None end.
+
+Definition wb (af : afault) (st : state) : pvals * bool :=
+  writeback (st_freqs st) (st_meas st) (fail_at af) 0 (unknown_list st) (st_pv st).
+
+Definition solved (st : state) : state :=
+  set_cal (set_pv st (fst (wb NoFault st))) (Some (st_meas st)).
+
+Lemma solve_cases (o : oracle) (af : afault) (st : state) :
+  solve o af st = (st, Err EINVAL) \/ solve o af st = (st, Err ENOMEM) \/ solve o af st = (st, Err EDOM)
+  \/ (solve o af st = (set_cal (set_pv st (fst (wb af st))) (Some (st_meas st)), Ok) /\ snd (wb af st) = true)
+  \/ (solve o af st = (set_pv st (fst (wb af st)), Err ENOMEM) /\ snd (wb af st) = false /\ wb_fault af = true).
 Proof.
   unfold solve. destruct (negb (st_fvalid st)); auto.
-  destruct (solve_path st); auto;
+  destruct af; auto;
     destruct (forallb (solve_frequency o st) (seq 0 (st_freqs st))); auto.
+  - right. right. right. left. unfold wb. simpl fail_at.
+    pose proof (writeback_nofault (st_freqs st) (st_meas st) (unknown_list st) 0 (st_pv st)) as W.
+    destruct (writeback _ _ None _ _ _) as [pv c]. simpl in W. subst c. simpl. auto.
+  - unfold wb. simpl fail_at.
+    destruct (writeback _ _ (Some j) _ _ _) as [pv c]. destruct c; simpl; auto 10.
 Qed.
 
-Lemma solve_fail_unchanged (o : oracle) (st : state) :
-  snd (solve o st) <> Ok -> fst (solve o st) = st.
+(* a failing solve that did not lose an allocation inside the write-back returns the state it was given:
+   measurements, equations, counters, the previous calibration and every parameter value *)
+Lemma solve_fail_unchanged (o : oracle) (af : afault) (st : state) :
+  wb_fault af = false -> snd (solve o af st) <> Ok -> fst (solve o af st) = st.
 Proof.
-  destruct (solve_cases o st) as [H | [H | [H | H]]]; rewrite H; simpl; auto. congruence.
+  intros W. destruct (solve_cases o af st) as [H | [H | [H | [[H _] | [H [_ C]]]]]]; rewrite H; simpl; auto; congruence.
 Qed.
 
-Lemma solve_ok_swaps (o : oracle) (st : state) :
-  snd (solve o st) = Ok -> fst (solve o st) = set_cal st (Some (st_meas st)).
+(* everything but the parameter values *)
+Definition same_but_pv (a b : state) : Prop :=
+  st_cf a = st_cf b /\ st_freqs a = st_freqs b /\ st_fvalid a = st_fvalid b /\ st_merr a = st_merr b /\
+  st_seen a = st_seen b /\ st_unknown a = st_unknown b /\ st_corr a = st_corr b /\ st_meas a = st_meas b /\
+  st_sys a = st_sys b /\ st_equations a = st_equations b /\ st_max a = st_max b /\ st_cal a = st_cal b.
+
+(* every failing solve, the write-back fault included, keeps the standards, the counters and the
+   previous calibration, and every parameter that is not an unknown of this calibration *)
+Lemma solve_fail_keeps (o : oracle) (af : afault) (st : state) :
+  snd (solve o af st) <> Ok ->
+  same_but_pv (fst (solve o af st)) st /\
+  forall k, ~ In k (unknown_list st) -> pv_get (st_pv (fst (solve o af st))) k = pv_get (st_pv st) k.
 Proof.
-  destruct (solve_cases o st) as [H | [H | [H | H]]]; rewrite H; simpl; auto; discriminate.
+  destruct (solve_cases o af st) as [H | [H | [H | [[H _] | [H _]]]]]; rewrite H; simpl; intros N;
+    try (split; [unfold same_but_pv; tauto | reflexivity]); try congruence.
+  split; [unfold same_but_pv; simpl; tauto |].
+  intros k Hk. unfold wb. apply writeback_frame. exact Hk.
 Qed.
 
-(* everything but the calibration is untouched by any solve *)
-Definition same_but_cal (a b : state) : Prop :=
+(* everything but the calibration and the parameter values is untouched by any solve *)
+Definition same_but_results (a b : state) : Prop :=
   st_cf a = st_cf b /\ st_freqs a = st_freqs b /\ st_fvalid a = st_fvalid b /\ st_merr a = st_merr b /\
   st_seen a = st_seen b /\ st_unknown a = st_unknown b /\ st_corr a = st_corr b /\ st_meas a = st_meas b /\
   st_sys a = st_sys b /\ st_equations a = st_equations b /\ st_max a = st_max b.
 
-Lemma solve_keeps_standards (o : oracle) (st : state) : same_but_cal (fst (solve o st)) st.
+Lemma solve_keeps_standards (o : oracle) (af : afault) (st : state) : same_but_results (fst (solve o af st)) st.
 Proof.
-  destruct (solve_cases o st) as [H | [H | [H | H]]]; rewrite H; simpl; unfold same_but_cal; simpl; tauto.
+  destruct (solve_cases o af st) as [H | [H | [H | [[H _] | [H _]]]]]; rewrite H; simpl;
+    unfold same_but_results; simpl; tauto.
 Qed.
 
-Lemma same_but_cal_sym (a b : state) : same_but_cal a b -> same_but_cal b a.
-Proof. unfold same_but_cal. intuition. Qed.
+Lemma same_but_results_sym (a b : state) : same_but_results a b -> same_but_results b a.
+Proof. unfold same_but_results. intuition. Qed.
 
-Lemma same_but_cal_trans (a b c : state) : same_but_cal a b -> same_but_cal b c -> same_but_cal a c.
-Proof. unfold same_but_cal. intuition congruence. Qed.
+Lemma same_but_results_trans (a b c : state) : same_but_results a b -> same_but_results b c -> same_but_results a c.
+Proof. unfold same_but_results. intuition congruence. Qed.
 
-Lemma set_cal_same (st : state) (c : option (list meas)) : same_but_cal (set_cal st c) st.
-Proof. unfold same_but_cal. simpl. tauto. Qed.
-
-(* the solve state is rebuilt on every call: the outcome does not depend on the previous calibration *)
-Lemma path_ignores_cal (st : state) (c : option (list meas)) : solve_path (set_cal st c) = solve_path st.
-Proof. reflexivity. Qed.
-
-Lemma solve_ignores_cal (o : oracle) (st : state) (c : option (list meas)) :
-  snd (solve o (set_cal st c)) = snd (solve o st).
+(* a successful solve: the calibration is replaced, every unknown parameter of this calibration holds
+   the new solution on the calibration's frequency grid, nothing else changes *)
+Lemma solve_ok_state (o : oracle) (af : afault) (st : state) :
+  snd (solve o af st) = Ok ->
+  let st' := fst (solve o af st) in
+  same_but_results st' st /\ st_cal st' = Some (st_meas st) /\
+  (forall k, In k (unknown_list st) ->
+        pv_get (st_pv st') k = {| pv_freqs := st_freqs st; pv_gamma := Some (st_meas st) |}) /\
+  (forall k, ~ In k (unknown_list st) -> pv_get (st_pv st') k = pv_get (st_pv st) k).
 Proof.
-  unfold solve. rewrite path_ignores_cal. simpl st_fvalid. simpl st_freqs.
-  destruct (negb (st_fvalid st)); auto.
-  change (solve_frequency o (set_cal st c)) with (solve_frequency o st).
-  destruct (solve_path st); auto; destruct (forallb (solve_frequency o st) (seq 0 (st_freqs st))); auto.
+  destruct (solve_cases o af st) as [H | [H | [H | [[H C] | [H _]]]]]; rewrite H; simpl; try discriminate.
+  intros _. split; [unfold same_but_results; simpl; tauto |]. split; [reflexivity |]. split.
+  - intros k Hk. unfold wb in *. apply writeback_done; assumption.
+  - intros k Hk. unfold wb. apply writeback_frame. exact Hk.
+Qed.
+
+Lemma solve_ok_nofault (o : oracle) (st : state) :
+  snd (solve o NoFault st) = Ok -> solve o NoFault st = (solved st, Ok).
+Proof.
+  destruct (solve_cases o NoFault st) as [H | [H | [H | [[H C] | [H [_ C]]]]]]; rewrite H; simpl; try discriminate.
+  reflexivity.
+Qed.
+
+(* ------------------------------------------------------------------ the verdict of a solve *)
+Lemma forallb_split {A} (d q : A -> bool) (l : list A) :
+  forallb (fun k => if d k then false else q k) l = negb (existsb d l) && forallb q l.
+Proof.
+  induction l as [| x l IH]; simpl; [reflexivity |].
+  rewrite IH. destruct (d x); simpl; [reflexivity |]. destruct (q x); simpl; [reflexivity |].
+  rewrite andb_false_r. reflexivity.
+Qed.
+
+(* at each frequency: the count test of the dispatched solver, then the numeric verdict *)
+Lemma solve_frequency_char (o : oracle) (st : state) (f : nat) :
+  solve_frequency o st f = negb (count_deficient st) && numeric_ok o st f.
+Proof.
+  unfold solve_frequency, count_deficient, numeric_ok. destruct (solve_path st).
+  - reflexivity.
+  - rewrite forallb_split. rewrite andb_assoc. reflexivity.
+  - destruct (_ <? _); reflexivity.
+Qed.
+
+Lemma forallb_seq_ext (p q : nat -> bool) (a n : nat) :
+  (forall f, a <= f < a + n -> p f = q f) -> forallb p (seq a n) = forallb q (seq a n).
+Proof.
+  revert a. induction n as [| n IH]; intros a H; simpl; [reflexivity |].
+  rewrite H by lia. rewrite IH; [reflexivity |]. intros f Hf. apply H. lia.
+Qed.
+
+(* the exact condition under which a solve without allocation failure succeeds *)
+Lemma solve_ok_iff (o : oracle) (st : state) :
+  snd (solve o NoFault st) = Ok <->
+  st_fvalid st = true /\
+  (st_freqs st = 0 \/ (count_deficient st = false /\ forall f, f < st_freqs st -> numeric_ok o st f = true)).
+Proof.
+  unfold solve. destruct (st_fvalid st); simpl; [| split; [discriminate | intros [H _]; discriminate]].
+  destruct (forallb (solve_frequency o st) (seq 0 (st_freqs st))) eqn:E.
+  - pose proof (writeback_nofault (st_freqs st) (st_meas st) (unknown_list st) 0 (st_pv st)) as W.
+    destruct (writeback _ _ None _ _ _) as [pv c]. simpl in W. subst c. simpl.
+    split; [| reflexivity]. intros _. split; [reflexivity |].
+    destruct (st_freqs st) as [| n] eqn:En; [left; reflexivity | right].
+    rewrite forallb_forall in E.
+    assert (E0 : solve_frequency o st 0 = true) by (apply E; apply in_seq; lia).
+    rewrite solve_frequency_char in E0. apply andb_prop in E0. destruct E0 as [D _].
+    apply negb_true_iff in D. split; [exact D |].
+    intros f Hf. assert (Ef : solve_frequency o st f = true) by (apply E; apply in_seq; lia).
+    rewrite solve_frequency_char in Ef. apply andb_prop in Ef. tauto.
+  - simpl. split; [discriminate |]. intros [_ [Z | [D N]]].
+    + rewrite Z in E. discriminate.
+    + assert (T : forallb (solve_frequency o st) (seq 0 (st_freqs st)) = true).
+      { apply forallb_forall. intros f Hf. apply in_seq in Hf. rewrite solve_frequency_char, D. simpl. apply N. lia. }
+      congruence.
+Qed.
+
+(* the solve state is rebuilt on every call: the verdict does not depend on the results of earlier
+   solves (previous calibration, parameter values) *)
+Lemma path_same (a b : state) : same_but_results a b -> solve_path a = solve_path b.
+Proof.
+  unfold same_but_results. intros (E1 & E2 & E3 & E4 & E5 & E6 & E7 & E8 & _).
+  unfold solve_path, is_trl. rewrite E1, E4, E6, E7, E8. reflexivity.
+Qed.
+
+Lemma solve_frequency_same (o : oracle) (a b : state) (f : nat) :
+  same_but_results a b -> solve_frequency o a f = solve_frequency o b f.
+Proof.
+  intros S. pose proof (path_same a b S) as P.
+  unfold same_but_results in S. destruct S as (E1 & E2 & E3 & E4 & E5 & E6 & E7 & E8 & E9 & E10 & E11).
+  unfold solve_frequency, view_of, x_length, sys_count. rewrite P, E1, E4, E6, E7, E8, E9, E10. reflexivity.
+Qed.
+
+Lemma solve_verdict_same (o : oracle) (a b : state) :
+  same_but_results a b -> (snd (solve o NoFault a) = Ok <-> snd (solve o NoFault b) = Ok).
+Proof.
+  intros S. assert (T : forallb (solve_frequency o a) (seq 0 (st_freqs a)) = forallb (solve_frequency o b) (seq 0 (st_freqs b))).
+  { destruct S as (E1 & E2 & R). rewrite E2. apply forallb_seq_ext. intros f _. apply solve_frequency_same.
+    unfold same_but_results. tauto. }
+  destruct S as (_ & _ & E3 & _).
+  unfold solve. rewrite E3, T. destruct (negb (st_fvalid b)); simpl; [tauto |].
+  destruct (forallb (solve_frequency o b) (seq 0 (st_freqs b))); simpl; [| tauto].
+  pose proof (writeback_nofault (st_freqs a) (st_meas a) (unknown_list a) 0 (st_pv a)) as Wa.
+  pose proof (writeback_nofault (st_freqs b) (st_meas b) (unknown_list b) 0 (st_pv b)) as Wb.
+  destruct (writeback _ _ None _ _ (st_pv a)) as [pa ca]. destruct (writeback _ _ None _ _ (st_pv b)) as [pb cb].
+  simpl in *. subst. simpl. tauto.
 Qed.
 
 (* ------------------------------------------------------------------ underdetermined => EDOM *)
-Lemma existsb_forallb_false {A} (p q : A -> bool) (l : list A) :
-  existsb p l = true -> (forall x, p x = true -> q x = false) -> forallb q l = false.
-Proof.
-  induction l as [| x l IH]; simpl; intros He Hq; [discriminate |].
-  destruct (p x) eqn:Hp.
-  - rewrite (Hq x Hp). reflexivity.
-  - simpl in He. rewrite (IH He Hq). apply andb_false_r.
-Qed.
-
 Lemma deficient_frequency_fails (o : oracle) (st : state) (f : nat) :
   count_deficient st = true -> solve_frequency o st f = false.
-Proof.
-  unfold count_deficient, solve_frequency.
-  destruct (solve_path st); try discriminate; intros H.
-  - rewrite (existsb_forallb_false _ _ _ H); [reflexivity |].
-    intros k Hk. rewrite Hk. reflexivity.
-  - rewrite H. reflexivity.
-Qed.
+Proof. intros H. rewrite solve_frequency_char, H. reflexivity. Qed.
 
 Lemma deficient_edom (o : oracle) (st : state) :
   st_fvalid st = true -> 0 < st_freqs st -> count_deficient st = true ->
-  solve o st = (st, Err EDOM).
+  solve o NoFault st = (st, Err EDOM).
 Proof.
   intros Hv Hf Hd. unfold solve. rewrite Hv. simpl.
   destruct (st_freqs st) as [| n] eqn:En; [lia |].
-  simpl seq. simpl forallb. rewrite (deficient_frequency_fails o st 0 Hd). simpl.
-  unfold count_deficient in Hd. destruct (solve_path st); try discriminate; reflexivity.
+  simpl seq. simpl forallb. rewrite (deficient_frequency_fails o st 0 Hd). reflexivity.
 Qed.
 
 (* with known standards only the simple path is taken *)
+Lemma trl_needs_two_unknowns (st : state) : is_trl st = true -> st_unknown st = 2.
+Proof.
+  unfold is_trl.
+  destruct (negb ((cf_r (st_cf st) =? 2) && (cf_c (st_cf st) =? 2) && is_8_10 (cf_ty (st_cf st)))); [discriminate |].
+  destruct (negb (length (st_meas st) =? 3)); [discriminate |].
+  destruct (st_unknown st =? 2) eqn:E; simpl; [intros _; apply Nat.eqb_eq; exact E | discriminate].
+Qed.
+
+(* the analytic TRL path is taken only for the exact shape: 2x2, T8/U8/TE10/UE10, three standards,
+   two unknown parameters, no correlated parameter, no measurement-error model *)
+Lemma trl_shape (st : state) :
+  solve_path st = PTrl ->
+  cf_r (st_cf st) = 2 /\ cf_c (st_cf st) = 2 /\ is_8_10 (cf_ty (st_cf st)) = true /\ length (st_meas st) = 3 /\
+  st_unknown st = 2 /\ st_corr st = 0 /\ st_merr st = false.
+Proof.
+  unfold solve_path. destruct (is_trl st) eqn:T; [intros _ | destruct (st_unknown st =? 0); discriminate].
+  unfold is_trl in T.
+  destruct ((cf_r (st_cf st) =? 2) && (cf_c (st_cf st) =? 2) && is_8_10 (cf_ty (st_cf st))) eqn:A; simpl in T; [| discriminate].
+  destruct (length (st_meas st) =? 3) eqn:B; simpl in T; [| discriminate].
+  destruct (st_unknown st =? 2) eqn:C; simpl in T; [| discriminate].
+  destruct (st_corr st =? 0) eqn:D; simpl in T; [| discriminate].
+  destruct (st_merr st) eqn:M; [discriminate |].
+  apply andb_prop in A. destruct A as [A A3]. apply andb_prop in A. destruct A as [A1 A2].
+  apply Nat.eqb_eq in A1, A2, B, C, D. tauto.
+Qed.
+
 Lemma known_path_simple (st : state) : st_unknown st = 0 -> solve_path st = PSimple.
 Proof.
-  intros H. unfold solve_path. rewrite H. simpl.
-  destruct (negb ((cf_r (st_cf st) =? 2) && (cf_c (st_cf st) =? 2) && is_8_10 (cf_ty (st_cf st)))); auto.
-  destruct (negb (length (st_meas st) =? 3)); auto.
+  intros H. unfold solve_path. destruct (is_trl st) eqn:T.
+  - apply trl_needs_two_unknowns in T. lia.
+  - rewrite H. reflexivity.
+Qed.
+
+Lemma unknown_path_auto (st : state) : st_unknown st <> 0 -> is_trl st = false -> solve_path st = PAuto.
+Proof.
+  intros H T. unfold solve_path. rewrite T. destruct (st_unknown st =? 0) eqn:E; [apply Nat.eqb_eq in E; lia | reflexivity].
 Qed.
 
 Lemma short_system_deficient (st : state) (k : nat) :
@@ -109,11 +313,11 @@ Proof.
 Qed.
 
 Lemma auto_total_deficient (st : state) :
-  solve_path st = PAuto ->
+  st_unknown st <> 0 -> is_trl st = false ->
   st_equations st + st_corr st < x_length st + st_unknown st ->
   count_deficient st = true.
 Proof.
-  intros Hp Hc. unfold count_deficient. rewrite Hp. apply Nat.ltb_lt. exact Hc.
+  intros Hu Ht Hc. unfold count_deficient. rewrite (unknown_path_auto st Hu Ht). apply Nat.ltb_lt. exact Hc.
 Qed.
 
 (* ------------------------------------------------------------------ adding standards *)
@@ -123,7 +327,7 @@ Definition run_adds (st : state) (l : list add_args) : state :=
 Lemma add_static (st : state) (a : add_args) :
   let st' := fst (add_std st a) in
   st_cf st' = st_cf st /\ st_freqs st' = st_freqs st /\ st_fvalid st' = st_fvalid st /\
-  st_merr st' = st_merr st /\ st_cal st' = st_cal st.
+  st_merr st' = st_merr st /\ st_cal st' = st_cal st /\ st_pv st' = st_pv st.
 Proof.
   unfold add_std. destruct (check_args (st_cf st) a); simpl; try tauto.
   destruct (st_merr st && is_16 (cf_ty (st_cf st)) && negb (s_complete (cf_p (st_cf st)) (full_s (st_cf st) a)));
@@ -134,12 +338,12 @@ Qed.
 Lemma run_adds_static (l : list add_args) (st : state) :
   let st' := run_adds st l in
   st_cf st' = st_cf st /\ st_freqs st' = st_freqs st /\ st_fvalid st' = st_fvalid st /\
-  st_merr st' = st_merr st /\ st_cal st' = st_cal st.
+  st_merr st' = st_merr st /\ st_cal st' = st_cal st /\ st_pv st' = st_pv st.
 Proof.
   revert st. induction l as [| a l IH]; intros st; simpl; [tauto |].
-  destruct (IH (fst (add_std st a))) as (A & B & C & D & E).
-  destruct (add_static st a) as (A' & B' & C' & D' & E').
-  unfold run_adds in *. simpl. rewrite A, B, C, D, E. tauto.
+  destruct (IH (fst (add_std st a))) as (A & B & C & D & E & G).
+  destruct (add_static st a) as (A' & B' & C' & D' & E' & G').
+  unfold run_adds in *. simpl. rewrite A, B, C, D, E, G. tauto.
 Qed.
 
 (* linking equations *)
@@ -399,13 +603,69 @@ Proof.
   apply existsb_pointwise. intros k. rewrite C. reflexivity.
 Qed.
 
-(* ------------------------------------------------------------------ histories: failed solves are invisible *)
-Fixpoint all_solves_fail (o : oracle) (st : state) (ops : list op) : Prop :=
-  match ops with
-  | [] => True
-  | OpSolve :: rest => snd (solve o st) <> Ok /\ all_solves_fail o (fst (solve o st)) rest
-  | x :: rest => all_solves_fail o (fst (step o st x)) rest
-  end.
+(* ------------------------------------------------------------------ the list of unknown parameters *)
+Definition unk_of (kinds : list (nat * pkind)) (k : nat) : bool := is_unk_kind (kind_of kinds k).
+Definition count_unk (kinds : list (nat * pkind)) (seen : list nat) : nat := length (filter (unk_of kinds) seen).
+
+(* _vnacal_new_get_parameter counts exactly the registered parameters of kind unknown / correlated *)
+Lemma reg_slot_counts (kinds : list (nat * pkind)) (fuel : nat) (acc : list nat * nat * nat) (k : nat) :
+  snd (fst acc) = count_unk kinds (fst (fst acc)) ->
+  snd (fst (reg_slot fuel kinds acc k)) = count_unk kinds (fst (fst (reg_slot fuel kinds acc k))).
+Proof.
+  revert acc k. induction fuel as [| f IH]; intros [[seen unk] cor] k H; simpl in *.
+  - destruct (mem k seen); simpl; [exact H |].
+    unfold count_unk, unk_of. destruct (kind_of kinds k) eqn:K; simpl; rewrite K; simpl; subst unk; reflexivity.
+  - destruct (mem k seen); simpl; [exact H |].
+    destruct (kind_of kinds k) eqn:K; simpl.
+    + unfold count_unk, unk_of. simpl. rewrite K. simpl. exact H.
+    + unfold count_unk, unk_of. simpl. rewrite K. simpl. subst unk. reflexivity.
+    + specialize (IH (seen, unk, cor) other H).
+      destruct (reg_slot f kinds (seen, unk, cor) other) as [[seen' unk'] cor']. simpl in IH.
+      destruct (mem k seen'); simpl; [exact IH |].
+      unfold count_unk, unk_of. simpl. rewrite K. simpl. subst unk'. reflexivity.
+Qed.
+
+Lemma reg_fold_counts (kinds : list (nat * pkind)) (fuel : nat) (cells : list nat) (acc : list nat * nat * nat) :
+  snd (fst acc) = count_unk kinds (fst (fst acc)) ->
+  snd (fst (fold_left (reg_slot fuel kinds) cells acc)) =
+  count_unk kinds (fst (fst (fold_left (reg_slot fuel kinds) cells acc))).
+Proof.
+  revert acc. induction cells as [| k cells IH]; intros acc H; simpl; [exact H |].
+  apply IH. apply reg_slot_counts. exact H.
+Qed.
+
+Definition unk_inv (st : state) : Prop := st_unknown st = count_unk (cf_kinds (st_cf st)) (st_seen st).
+
+Lemma unknown_list_length (st : state) : unk_inv st -> length (unknown_list st) = st_unknown st.
+Proof.
+  unfold unk_inv, unknown_list, count_unk, unk_of. intros H. rewrite H.
+  generalize (st_seen st). intros l. induction l as [| x l IH]; simpl; [reflexivity |].
+  rewrite filter_app, app_length. simpl. rewrite IH.
+  destruct (is_unk_kind (kind_of (cf_kinds (st_cf st)) x)); simpl; lia.
+Qed.
+
+Lemma add_unk_inv (st : state) (a : add_args) : unk_inv st -> unk_inv (fst (add_std st a)).
+Proof.
+  unfold unk_inv, add_std. intros H. destruct (check_args (st_cf st) a); simpl; auto.
+  destruct (st_merr st && is_16 (cf_ty (st_cf st)) && negb (s_complete (cf_p (st_cf st)) (full_s (st_cf st) a)));
+    simpl; auto.
+  destruct (fold_left link_one _ _) as [[sys total] mx]. simpl.
+  apply (reg_fold_counts (cf_kinds (st_cf st)) (length (cf_kinds (st_cf st))) (a_cells a)
+                         (st_seen st, st_unknown st, st_corr st)). exact H.
+Qed.
+
+Lemma init_unk_inv (cf : config) (F : nat) (v : bool) : kind_of (cf_kinds cf) 0 = PKnown -> unk_inv (init cf F v).
+Proof. unfold unk_inv, count_unk, unk_of. simpl. intros H. rewrite H. reflexivity. Qed.
+
+Lemma step_unk_inv (o : oracle) (st : state) (x : op) : unk_inv st -> unk_inv (fst (step o st x)).
+Proof.
+  intros H. destruct x; simpl.
+  - apply add_unk_inv. exact H.
+  - destruct (solve_keeps_standards o af st) as (E1 & _ & _ & _ & E5 & E6 & _). unfold unk_inv. rewrite E1, E5, E6. exact H.
+  - unfold set_m_error. destruct (negb on); [exact H |]. destruct (negb (st_fvalid st)); [exact H |].
+    destruct (_ && _); exact H.
+  - unfold take_cal. destruct (st_cal st); exact H.
+Qed.
 
 Lemma run_cons (o : oracle) (st : state) (x : op) (rest : list op) :
   fst (run o st (x :: rest)) = fst (run o (fst (step o st x)) rest).
@@ -413,14 +673,38 @@ Proof.
   simpl. destruct (step o st x) as [st1 out]. simpl. destruct (run o st1 rest). reflexivity.
 Qed.
 
+(* along every history the counter vn_unknown_parameters is the length of the unknown-parameter list *)
+Lemma run_unk_inv (o : oracle) (ops : list op) (st : state) : unk_inv st -> unk_inv (fst (run o st ops)).
+Proof.
+  revert st. induction ops as [| x ops IH]; intros st H; [exact H |].
+  rewrite run_cons. apply IH. apply step_unk_inv. exact H.
+Qed.
+
+Lemma unknown_counter_is_list_length_l (o : oracle) (cf : config) (F : nat) (v : bool) (ops : list op) :
+  kind_of (cf_kinds cf) 0 = PKnown ->
+  let st := fst (run o (init cf F v) ops) in length (unknown_list st) = st_unknown st.
+Proof.
+  intros K. apply unknown_list_length. apply run_unk_inv. apply init_unk_inv. exact K.
+Qed.
+
+(* ------------------------------------------------------------------ histories: failed solves are invisible *)
+(* every solve of the history fails, none of them by an allocation failure inside the write-back *)
+Fixpoint all_solves_fail (o : oracle) (st : state) (ops : list op) : Prop :=
+  match ops with
+  | [] => True
+  | OpSolve af :: rest =>
+    wb_fault af = false /\ snd (solve o af st) <> Ok /\ all_solves_fail o (fst (solve o af st)) rest
+  | x :: rest => all_solves_fail o (fst (step o st x)) rest
+  end.
+
 Lemma failed_solves_invisible (o : oracle) (ops : list op) (st : state) :
   all_solves_fail o st ops -> fst (run o st ops) = fst (run o st (remove_solves ops)).
 Proof.
   revert st. induction ops as [| x ops IH]; intros st H; [reflexivity |].
   destruct x; simpl remove_solves; simpl in H.
   - rewrite !run_cons. apply IH. exact H.
-  - destruct H as [Hf Hr]. rewrite run_cons. simpl step.
-    rewrite (solve_fail_unchanged o st Hf) in *. apply IH. exact Hr.
+  - destruct H as [Hw [Hf Hr]]. rewrite run_cons. simpl step.
+    rewrite (solve_fail_unchanged o af st Hw Hf) in *. apply IH. exact Hr.
   - rewrite !run_cons. apply IH. exact H.
   - rewrite !run_cons. apply IH. exact H.
 Qed.
@@ -434,40 +718,74 @@ Proof.
     destruct (run o st1 a) as [st2 outs]. simpl. reflexivity.
 Qed.
 
-Lemma retry (o : oracle) (st : state) (ops more : list op) :
-  all_solves_fail o st ops ->
-  run o (fst (run o st ops)) (more ++ [OpSolve]) = run o (fst (run o st (remove_solves ops))) (more ++ [OpSolve]).
-Proof. intros H. rewrite (failed_solves_invisible o ops st H). reflexivity. Qed.
-
-(* even successful solves only replace the calibration: what a later solve reports is the same *)
-Lemma step_same_but_cal (o : oracle) (a b : state) (x : op) :
-  same_but_cal a b -> x <> OpTakeCal ->
-  same_but_cal (fst (step o a x)) (fst (step o b x)) /\ snd (step o a x) = snd (step o b x).
+(* a history without solves is the list of its adds / set_m_error / add_calibration calls *)
+Lemma run_adds_as_run (o : oracle) (l : list add_args) (st : state) :
+  fst (run o st (map OpAdd l)) = run_adds st l.
 Proof.
-  intros S Hx. unfold same_but_cal in S.
+  revert st. induction l as [| a l IH]; intros st; [reflexivity |].
+  simpl map. rewrite run_cons. simpl step. rewrite IH. reflexivity.
+Qed.
+
+(* retry: after any number of failed attempts, the solve succeeds as soon as the count test of the
+   dispatched solver is met and the numeric verdict is positive - and it then leaves exactly the state
+   that the history without the failed attempts would have left *)
+Lemma retry_succeeds (o : oracle) (st : state) (ops : list op) :
+  all_solves_fail o st ops ->
+  let st' := fst (run o st (remove_solves ops)) in
+  st_fvalid st' = true -> count_deficient st' = false ->
+  (forall f, f < st_freqs st' -> numeric_ok o st' f = true) ->
+  run o st (ops ++ [OpSolve NoFault]) = (solved st', snd (run o st ops) ++ [Ok]).
+Proof.
+  intros H st' Hv Hd Hn. rewrite run_app. rewrite (failed_solves_invisible o ops st H). fold st'.
+  simpl run.
+  assert (K : snd (solve o NoFault st') = Ok) by (apply solve_ok_iff; auto).
+  rewrite (solve_ok_nofault o st' K). reflexivity.
+Qed.
+
+(* ... and conversely it keeps failing with EDOM, unchanged, while the count test is not met *)
+Lemma retry_still_deficient (o : oracle) (st : state) (ops : list op) :
+  all_solves_fail o st ops ->
+  let st' := fst (run o st (remove_solves ops)) in
+  st_fvalid st' = true -> 0 < st_freqs st' -> count_deficient st' = true ->
+  run o st (ops ++ [OpSolve NoFault]) = (st', snd (run o st ops) ++ [Err EDOM]).
+Proof.
+  intros H st' Hv Hf Hd. rewrite run_app. rewrite (failed_solves_invisible o ops st H). fold st'.
+  simpl run. rewrite (deficient_edom o st' Hv Hf Hd). reflexivity.
+Qed.
+
+(* the documented flow: solve fails for want of standards; add standards; solve again *)
+Lemma add_until_determined (o : oracle) (st : state) (more : list add_args) :
+  st_fvalid st = true -> 0 < st_freqs st -> count_deficient st = true ->
+  let st1 := fst (solve o NoFault st) in
+  let st2 := run_adds st1 more in
+  count_deficient st2 = false -> (forall f, f < st_freqs st2 -> numeric_ok o st2 f = true) ->
+  solve o NoFault st = (st, Err EDOM) /\ st2 = run_adds st more /\ solve o NoFault st2 = (solved st2, Ok).
+Proof.
+  intros Hv Hf Hd st1 st2 Hd2 Hn.
+  pose proof (deficient_edom o st Hv Hf Hd) as E.
+  assert (E1 : st1 = st) by (unfold st1; rewrite E; reflexivity).
+  split; [exact E |]. split; [unfold st2; rewrite E1; reflexivity |].
+  apply solve_ok_nofault. apply solve_ok_iff. split.
+  - unfold st2. destruct (run_adds_static more st1) as (_ & _ & Fv & _). rewrite Fv, E1. exact Hv.
+  - right. split; assumption.
+Qed.
+
+(* even successful solves only replace the results: what a later solve reports is the same *)
+Lemma step_same_but_results (o : oracle) (a b : state) (x : op) :
+  same_but_results a b -> x <> OpTakeCal -> is_solve x = false ->
+  same_but_results (fst (step o a x)) (fst (step o b x)) /\ snd (step o a x) = snd (step o b x).
+Proof.
+  intros S Hx Hs. unfold same_but_results in S.
   destruct S as (E1 & E2 & E3 & E4 & E5 & E6 & E7 & E8 & E9 & E10 & E11).
-  destruct a as [cf fr fv me se un co ms sy eq mx ca], b as [cf' fr' fv' me' se' un' co' ms' sy' eq' mx' ca'].
+  destruct a as [cf fr fv me se un co ms sy eq mx ca pa], b as [cf' fr' fv' me' se' un' co' ms' sy' eq' mx' ca' pa'].
   simpl in *. subst cf' fr' fv' me' se' un' co' ms' sy' eq' mx'.
-  destruct x; try congruence.
+  destruct x; try congruence; try discriminate.
   - (* add *) simpl step. unfold add_std. simpl.
-    destruct (check_args cf a); simpl; unfold same_but_cal; simpl; try tauto.
+    destruct (check_args cf a); simpl; unfold same_but_results; simpl; try tauto.
     destruct (me && is_16 (cf_ty cf) && negb (s_complete (cf_p cf) (full_s cf a))); simpl; try tauto.
     destruct (fold_left link_one _ _) as [[sys total] m']. simpl. tauto.
-  - (* solve *) simpl step.
-    change {| st_cf := cf; st_freqs := fr; st_fvalid := fv; st_merr := me; st_seen := se; st_unknown := un;
-              st_corr := co; st_meas := ms; st_sys := sy; st_equations := eq; st_max := mx; st_cal := ca |}
-      with (set_cal {| st_cf := cf; st_freqs := fr; st_fvalid := fv; st_merr := me; st_seen := se; st_unknown := un;
-              st_corr := co; st_meas := ms; st_sys := sy; st_equations := eq; st_max := mx; st_cal := ca' |} ca).
-    set (b := {| st_cf := cf; st_freqs := fr; st_fvalid := fv; st_merr := me; st_seen := se; st_unknown := un;
-              st_corr := co; st_meas := ms; st_sys := sy; st_equations := eq; st_max := mx; st_cal := ca' |}).
-    split; [| apply solve_ignores_cal].
-    pose proof (solve_keeps_standards o (set_cal b ca)) as A.
-    pose proof (solve_keeps_standards o b) as B.
-    apply (same_but_cal_trans _ _ _ A).
-    apply (same_but_cal_trans _ _ _ (set_cal_same b ca)).
-    apply same_but_cal_sym. exact B.
   - (* merr *) simpl step. unfold set_m_error. simpl.
-    destruct (negb on); simpl; unfold same_but_cal; simpl; try tauto.
+    destruct (negb on); simpl; unfold same_but_results; simpl; try tauto.
     destruct (negb fv); simpl; try tauto.
     destruct (is_16 (cf_ty cf) && negb (forallb (fun m => s_complete (cf_p cf) (ms_s m)) ms)); simpl; tauto.
 Qed.
@@ -477,16 +795,38 @@ Lemma underdetermined_edom_l (o : oracle) (cf : config) (F : nat) (stds : list a
   let st := run_adds (init cf F true) stds in
   0 < F -> st_unknown st = 0 -> k < systems (cf_ty cf) (cf_c cf) ->
   sys_count st k < unknowns (cf_ty cf) (cf_r cf) (cf_c cf) ->
-  solve o st = (st, Err EDOM).
+  solve o NoFault st = (st, Err EDOM).
 Proof.
   intros st HF Hu Hk Hc.
-  destruct (run_adds_static stds (init cf F true)) as (Cf & Fr & Fv & _ & _). fold st in Cf, Fr, Fv.
+  destruct (run_adds_static stds (init cf F true)) as (Cf & Fr & Fv & _). fold st in Cf, Fr, Fv.
   simpl in Cf, Fr, Fv.
   apply deficient_edom.
   - rewrite Fv. reflexivity.
   - rewrite Fr. exact HF.
   - apply (short_system_deficient st k Hu); rewrite Cf; assumption.
 Qed.
+
+(* unknown parameters, iterative solver: equations + correlated < error terms + unknown parameters *)
+Lemma underdetermined_auto_edom_l (o : oracle) (cf : config) (F : nat) (stds : list add_args) :
+  let st := run_adds (init cf F true) stds in
+  0 < F -> st_unknown st <> 0 -> is_trl st = false ->
+  st_equations st + st_corr st <
+    systems (cf_ty cf) (cf_c cf) * unknowns (cf_ty cf) (cf_r cf) (cf_c cf) + st_unknown st ->
+  solve o NoFault st = (st, Err EDOM).
+Proof.
+  intros st HF Hu Ht Hc.
+  destruct (run_adds_static stds (init cf F true)) as (Cf & Fr & Fv & _). fold st in Cf, Fr, Fv.
+  simpl in Cf, Fr, Fv.
+  apply deficient_edom.
+  - rewrite Fv. reflexivity.
+  - rewrite Fr. exact HF.
+  - apply (auto_total_deficient st Hu Ht). unfold x_length. rewrite Cf. exact Hc.
+Qed.
+
+(* no frequencies: the loop does not run, the solve succeeds whatever was added (as coded) *)
+Lemma zero_frequencies_ok_l (o : oracle) (st : state) :
+  st_fvalid st = true -> st_freqs st = 0 -> solve o NoFault st = (solved st, Ok).
+Proof. intros Hv Hf. apply solve_ok_nofault. apply solve_ok_iff. auto. Qed.
 
 Lemma order_irrelevant_init (cf : config) (F : nat) (v : bool) (l l' : list add_args) :
   Permutation l l' ->
@@ -497,7 +837,7 @@ Proof.
   intros P. apply order_irrelevant; [exact P |]. apply (proj2 (init_shape cf F v)).
 Qed.
 
-Lemma order_irrelevant_decision_known_l (cf : config) (F : nat) (v : bool) (l l' : list add_args) :
+Lemma order_irrelevant_count_test_known_l (cf : config) (F : nat) (v : bool) (l l' : list add_args) :
   cf_kinds cf = [] -> Permutation l l' ->
   count_deficient (run_adds (init cf F v) l) = count_deficient (run_adds (init cf F v) l').
 Proof.
@@ -513,11 +853,16 @@ Proof.
   - apply (order_irrelevant_init cf F v l l' P).
 Qed.
 
-(* a failed solve leaves the whole state, previous calibration included, as it was *)
-Lemma failed_solve_unchanged_l (o : oracle) (st : state) (e : errno) :
-  snd (solve o st) = Err e -> solve o st = (st, Err e).
+(* hence, for known standards and at least one frequency, too few standards are reported in every order *)
+Lemma order_irrelevant_edom_known_l (o : oracle) (cf : config) (F : nat) (l l' : list add_args) :
+  cf_kinds cf = [] -> Permutation l l' -> 0 < F ->
+  count_deficient (run_adds (init cf F true) l) = true ->
+  solve o NoFault (run_adds (init cf F true) l') = (run_adds (init cf F true) l', Err EDOM).
 Proof.
-  intros H. destruct (solve_cases o st) as [A | [A | [A | A]]]; rewrite A in *; simpl in H; congruence.
+  intros K P HF D.
+  destruct (run_adds_static l' (init cf F true)) as (_ & Fb & Vb & _). simpl in *.
+  apply deficient_edom; [rewrite Vb; reflexivity | rewrite Fb; exact HF |].
+  rewrite <- (order_irrelevant_count_test_known_l cf F true l l' K P). exact D.
 Qed.
 
 (* a computable sufficient condition for all_solves_fail (used for the non-vacuity examples):
@@ -525,10 +870,19 @@ Qed.
 Fixpoint solves_deficient (st : state) (ops : list op) : bool :=
   match ops with
   | [] => true
-  | OpSolve :: rest =>
-    st_fvalid st && (0 <? st_freqs st) && count_deficient st && solves_deficient st rest
+  | OpSolve af :: rest =>
+    negb (wb_fault af) && st_fvalid st && (0 <? st_freqs st) && count_deficient st && solves_deficient st rest
   | x :: rest => solves_deficient (fst (step (fun _ _ _ => true) st x)) rest
   end.
+
+Lemma solve_deficient_any_fault (o : oracle) (af : afault) (st : state) :
+  wb_fault af = false -> st_fvalid st = true -> 0 < st_freqs st -> count_deficient st = true ->
+  fst (solve o af st) = st /\ snd (solve o af st) <> Ok.
+Proof.
+  intros W Hv Hf Hd. destruct af; try discriminate.
+  - rewrite (deficient_edom o st Hv Hf Hd). simpl. split; [reflexivity | discriminate].
+  - unfold solve. rewrite Hv. simpl. split; [reflexivity | discriminate].
+Qed.
 
 Lemma solves_deficient_fail (o : oracle) (ops : list op) (st : state) :
   solves_deficient st ops = true -> all_solves_fail o st ops.
@@ -537,8 +891,10 @@ Proof.
   destruct x; simpl in H.
   - apply IH. exact H.
   - apply andb_prop in H. destruct H as [H Hr]. apply andb_prop in H. destruct H as [H Hd].
-    apply andb_prop in H. destruct H as [Hv Hf]. apply Nat.ltb_lt in Hf.
-    rewrite (deficient_edom o st Hv Hf Hd). simpl. split; [discriminate | apply IH; exact Hr].
+    apply andb_prop in H. destruct H as [H Hf]. apply andb_prop in H. destruct H as [Hw Hv].
+    apply Nat.ltb_lt in Hf. apply negb_true_iff in Hw.
+    destruct (solve_deficient_any_fault o af st Hw Hv Hf Hd) as [E N].
+    split; [exact Hw |]. split; [exact N |]. rewrite E. apply IH. exact Hr.
   - apply IH. exact H.
   - apply IH. exact H.
 Qed.
